@@ -59,7 +59,7 @@ PROPS["C03"] = {
             "lattice of special endpoints + moderate random intervals; rational operators decided exactly by the verified checkers, "
             "other operators by MPFR-rigorous sample points in the removed parts; non-trivial = the call contracted, proved infeasibility, or a consistent sample point was tested",
     "assumptions": ["exact decision for add sub mul div sqrt abs max min sign floor ceil pow(n>=1); point sampling (MPFR oracle) for sqr exp log cos sin tan acos asin atan cosh sinh tanh acosh asinh atanh atan2 pow(n<=0)",
-                    "vector/matrix backward operators, bwd_chi, bwd_saw, bwd_imod not yet driven"],
+                    "vector/matrix backward operators (add, sub, scalar*vector, dot product up to dimension 6, matrix*vector, vector*matrix, matrix*matrix, matrix add, scalar*matrix) by planted consistent tuples decided exactly; bwd_chi, bwd_saw, bwd_imod not yet driven"],
     "trusted": ["MPFR/GMP as point oracle for transcendental operators"],
     "technique": "Lean 4 proof (verified exact checkers: contracting, no consistent real tuple lost, flag) run on the C++ outputs + MPFR-rigorous point sampling for transcendental operators",
     "level_text": "Kernel-checked theorems: each checker run by the driver on the outputs (x1',x2',flag) of bwd_add/sub/mul/div/sqrt/abs/max/min/sign/floor/ceil/pow(n>=1) is sound for all intervals (any extended bounds) and all real tuples: accepted outputs are sub-intervals, contain every consistent tuple, and flag=false only if none exists; the projections are computed with exact rational arithmetic so that one-ulp rounding slips are decided, not sampled. Other operators: a sample point whose MPFR image enclosure lies in y must remain (sampleOk_sound).",
